@@ -11,6 +11,9 @@ A *case description* is plain JSON:
             | "YYYY-MM-DDTHH:MM:SS[.f{1,9}]"   instants (datetime families;
                                         always the UTC instant for tz families)
             | "YYYY-MM-DD"              datetime.date (dateobj family)
+            | {"null": flavour}         a specific null object in an object
+                                        column: None, nan (float('nan')),
+                                        npnan (np.nan), NA (pd.NA), NaT (pd.NaT)
 
 `build_frame(desc)` turns a description into a real pandas DataFrame (a new
 object on every call), `plain_column(col)` turns a column into the plain
@@ -209,6 +212,85 @@ def rex_structured_columns(thorough=False, name='a', fam='rexs'):
         yield {'name': name, 'fam': fam, 'v': vals}
 
 
+# ------------------------------------------------------------ null flavours
+
+def null_sequences():
+    """Every single flavour, every pair (both orders) and every triple of
+    the five null objects an object column can hold."""
+    F = NULL_FLAVOURS
+    for f in F:
+        yield [f]
+    for a, b in itertools.permutations(F, 2):
+        yield [a, b]
+    for t in itertools.combinations(F, 3):
+        yield list(t)
+
+
+def _interleave(values, nulls):
+    """v0 n0 v1 n1 ... (left-over nulls at the end)."""
+    out = []
+    cells = [{'null': f} for f in nulls]
+    for i, v in enumerate(values):
+        out.append(v)
+        if i < len(cells):
+            out.append(cells[i])
+    out.extend(cells[len(values):])
+    return out
+
+
+def null_flavour_columns(name='a'):
+    """Object columns (strings, bools, dates, 19/20/21 categories) holding
+    one, two or three KINDS of null, with all values distinct / one value
+    duplicated / a single value / no value at all."""
+    shapes = [
+        ('strobj', [[], ['a'], ['a', 'B1'], ['a', 'a', 'B1']]),
+        ('boolobj', [[True], [True, False], [True, True, False]]),
+        ('dateobj', [['1999-12-31'], ['1999-12-31', '2000-01-01'],
+                     ['1999-12-31', '1999-12-31', '2000-01-01']]),
+        ('manycat', [manycat_values(n, rep, 0) for n in (19, 20, 21)
+                     for rep in (0, 1)]),
+    ]
+    for nulls in null_sequences():
+        for fam, value_lists in shapes:
+            for values in value_lists:
+                yield {'name': name, 'fam': fam,
+                       'v': _interleave(values, nulls)}
+
+
+# ------------------------------------------------- line-boundary characters
+
+LINE_CHARS = ['\n', '\r', '\r\n', '\t', '\x0b', '\x0c', '\x1c', '\x85',
+              '\u2028', '\u2029', '\x00']
+
+
+def line_boundary_values():
+    """String columns for the rex-on pipelines with every whitespace / line
+    boundary character inside and at the end of a value: short values ('.'
+    vs DOTALL, '$' before a final newline), values of 98..101 coarse-class
+    runs (rexpy falls back to '.{m,n}' above MAX_GROUPS = 99) and columns of
+    99..101 distinct values (sampling boundary)."""
+    for ch in LINE_CHARS:
+        yield ['a' + ch + 'b', 'c' + ch + 'd']
+        yield ['a' + ch, 'b' + ch]
+        yield [ch]
+        yield ['a' + ch + 'b', 'cd']
+        yield ['a' + ch, 'a']
+        yield [ch + 'a', 'a']
+        for k in (48, 49, 50):
+            # 2k runs without the character; inside it adds runs, at the end
+            # it adds one
+            yield ['a-' * k + ch]
+            yield ['a-' * (k // 2) + 'a' + ch + 'a-' * (k - k // 2)]
+            yield ['a-' * k + ch, 'b-' * k + 'b']
+        for n in (99, 100, 101):
+            yield ['v%03d' % i for i in range(n - 1)] + ['v' + ch + '7']
+
+
+def line_boundary_columns(name='a', fam='rexs'):
+    for vals in line_boundary_values():
+        yield {'name': name, 'fam': fam, 'v': vals}
+
+
 def columns(fam, maxrows, name='a', minrows=0):
     """Every column of 0..maxrows cells over the family's alphabet."""
     vals = FAMILIES[fam]['values']
@@ -272,6 +354,29 @@ def parse_date(s):
     return datetime.datetime.strptime(s, '%Y-%m-%d').date()
 
 
+NULL_FLAVOURS = ['None', 'nan', 'npnan', 'NA', 'NaT']
+NULL_SRC = {'None': 'None', 'nan': "float('nan')", 'npnan': 'np.nan',
+            'NA': 'pd.NA', 'NaT': 'pd.NaT'}
+
+
+def is_null_cell(v):
+    return v is None or isinstance(v, dict)
+
+
+def null_object(cell):
+    import numpy as np
+    import pandas as pd
+    if cell is None:
+        return None
+    return {'None': None, 'nan': float('nan'), 'npnan': np.nan,
+            'NA': pd.NA, 'NaT': pd.NaT}[cell['null']]
+
+
+def null_flavours_of(col):
+    """Sorted list of the explicit null flavours used in a column."""
+    return sorted(set(v['null'] for v in col['v'] if isinstance(v, dict)))
+
+
 def build_series(col):
     """A fresh pandas Series for a column description."""
     import numpy as np
@@ -291,15 +396,16 @@ def build_series(col):
     if fam == 'bool':
         return pd.Series(np.array(vals, dtype=bool), dtype=bool)
     if fam in ('boolobj', 'strobj', 'manycat', 'rexs'):
-        return pd.Series(list(vals), dtype=object)
+        return pd.Series([null_object(v) if is_null_cell(v) else v
+                          for v in vals], dtype=object)
     if fam in ('cat', 'rexscat'):
         return pd.Series(pd.Categorical(list(vals)))
     if fam == 'catx':
         return pd.Series(pd.Categorical(list(vals),
                                         categories=CATX_CATEGORIES))
     if fam == 'dateobj':
-        return pd.Series([None if v is None else parse_date(v) for v in vals],
-                         dtype=object)
+        return pd.Series([null_object(v) if is_null_cell(v)
+                          else parse_date(v) for v in vals], dtype=object)
     if info['kind'] == 'date':
         unit = info.get('unit') or fam[2:]
         arr = np.array(['NaT' if v is None else v for v in vals],
@@ -413,7 +519,7 @@ def plain_column(col):
     kind = info['kind']
     vals = []
     for v in col['v']:
-        if v is None:
+        if is_null_cell(v):
             vals.append(None)
         elif kind == 'real':
             vals.append(float(_f(v)))
@@ -454,6 +560,16 @@ def snippet(desc):
             if FAMILIES[fam].get('tz'):
                 e += '.dt.tz_localize("UTC").dt.tz_convert(%r)' \
                     % FAMILIES[fam]['tz']
+        elif dtype == 'object' and any(isinstance(x, dict) for x in v):
+            items = []
+            for x in v:
+                if is_null_cell(x):
+                    items.append('None' if x is None else NULL_SRC[x['null']])
+                elif fam == 'dateobj':
+                    items.append('datetime.date.fromisoformat(%r)' % x)
+                else:
+                    items.append(repr(x))
+            e = 'pd.Series([%s], dtype=object)' % ', '.join(items)
         elif fam == 'dateobj':
             e = ('pd.Series([None if x is None else '
                  'datetime.date.fromisoformat(x) for x in %r], dtype=object)'
